@@ -4,6 +4,7 @@ package verifharness_test
 
 import (
 	"fmt"
+	"math/rand/v2"
 	"strconv"
 	"strings"
 	"testing"
@@ -147,7 +148,7 @@ func c16RunCase(r *Run, l *Local, e *c16Env, q Req) {
 
 func TestVerif_C16(t *testing.T) {
 	r := newRun(t, "C16")
-	r.Rule("C02 configuration product with a canary token added to every discrete allow-list (origins, methods, request headers, exposed headers), debug off, x preflights: succeeding, failing at the origin / PNA / method / header step, and hostile Origin/ACRM/ACRH/ACRPN values (see C03). " +
+	r.Rule("C02 configuration product and PRNG origin-rich configurations, each with a canary token added to every discrete allow-list (origins, methods, request headers, exposed headers), debug off, x preflights: succeeding, failing at the origin / PNA / method / header step, and hostile Origin/ACRM/ACRH/ACRPN values (see C03). " +
 		"evaluation = one preflight exchange; oracle: failure => no Access-Control-* header, non-ok status identical for all failures of the configuration, empty body; success => every token of every Access-Control-* value is `*`, `true`, the configured max-age or supplied by the request (`authorization` in the `*,authorization` case); no canary anywhere. " +
 		"non-trivial = preflight from an allowed origin (so that the method/header/PNA steps and the success path are reached), distinct by hash")
 	r.Assume("success of a preflight is read off the response itself (ok status and Access-Control-Allow-Origin present)")
@@ -168,17 +169,25 @@ func TestVerif_C16(t *testing.T) {
 		return
 	}
 	prod, _ := c02Product()
+	nProd := len(prod)
+	// origin-rich PRNG configurations (several schemes/ports per host, IP literals, `*` mixes) after the product
+	{
+		rng := rand.New(rand.NewPCG(r.Seed, 16))
+		for i := 0; i < pick(r, 300, 6000); i++ {
+			prod = append(prod, randRichValidCfg(rng))
+		}
+	}
 	cfgStride := pick(r, 5, 1)
 	nRand := pick(r, 300, 2500)
 	r.Parallel(len(prod), func(l *Local) {
-		if (l.Batch+int(r.Seed))%cfgStride != 0 {
+		if l.Batch < nProd && (l.Batch+int(r.Seed))%cfgStride != 0 {
 			return
 		}
 		c := withCanaries(prod[l.Batch])
 		if !c.valid() {
 			return
 		}
-		mw, err := cors.NewMiddleware(c.Config())
+		mw, err := newMiddlewareVia(c.Config(), l.Batch)
 		if err != nil {
 			return
 		}
